@@ -1,9 +1,9 @@
 (* C01 - a dead worker always has one definite, consistent and stable outcome.
    sk_thread_run, sk_process_run and the persistent _cleanup skeletons are GENERATED from
-   thread.py / process.py / persistent_*.py (Gen/Skel.v); Child/Sem.v gives them a semantics
+   thread.py / process.py / remote.py / persistent_*.py (Gen/Skel.v); Child/Sem.v gives them a semantics
    with asynchronous exceptions and kills landing at any statement boundary, and models the
    parent-side decoding (ThreadWorker._get_result, ProcessWorker._get_result). *)
-From PW Require Import Child.Sem Gen.Skel Child.Runs Child.Proofs.
+From PW Require Import Child.Sem Gen.Skel Child.Runs Child.Proofs Child.ProofsRemote.
 
 (* For every kind in {thread, process} x {one-shot, persistent}, every behaviour of the target
    (returns, raises an Exception, raises a BaseException, loops until interrupted), every payload
@@ -16,10 +16,35 @@ From PW Require Import Child.Sem Gen.Skel Child.Runs Child.Proofs.
    otherwise error is WorkerTerminatedError or None.  No run passes BOUND statement boundaries,
    so the points p1, p2 < BOUND are all there are. *)
 Theorem C01_every_landing_point :
-  forall k pers t rb p1 a1 p2 a2, p1 < BOUND -> p2 < BOUND ->
+  forall k pers t rb p1 a1 p2 a2, k <> KRemote -> a1 <> ATerm -> a2 <> ATerm -> p1 < BOUND -> p2 < BOUND ->
     shape_ok t (obs_of (k, pers, t, rb, (p1, a1), (p2, a2)))
     /\ steps_of (k, pers, t, rb, (p1, a1), (p2, a2)) < BOUND.
 Proof. exact c01_every_landing. Qed.
+
+(* The same for the REMOTE kind, over the generated skeleton of RemoteWorker._run_backend (the backend process on
+   the server: nested try blocks, the local variable `result`, result and user state written to the data socket in
+   the outer finally block) and PersistentRemoteWorker._cleanup, decoded the way the parent's frontend thread does
+   (RemoteWorker._fetch_results: a result that cannot be received or rebuilt is (False, None)).  The run loop is
+   longer: no run passes BOUND_R boundaries. *)
+Theorem C01_every_landing_point_remote :
+  forall pers t rb p1 a1 p2 a2, a1 <> ATerm -> a2 <> ATerm -> p1 < BOUND_R -> p2 < BOUND_R ->
+    shape_ok t (obs_of (KRemote, pers, t, rb, (p1, a1), (p2, a2)))
+    /\ steps_of (KRemote, pers, t, rb, (p1, a1), (p2, a2)) < BOUND_R.
+Proof. exact c01_remote_every_landing. Qed.
+
+(* the defect repaired by "fix: a remote worker whose target raises a BaseException ends with a definite outcome":
+   the skeleton without the `if result is None` repair sends None - the parent is dead with has_error None *)
+Theorem C01_remote_base_exception_needs_the_repair :
+  observe KRemote true (exec TRaiseBase 300 (strip_fix sk_remote_backend) (init_cs [] None)) = OUndef
+  /\ observe KRemote true (run KRemote false TRaiseBase []) = OErr None.
+Proof. exact remote_base_exception_needs_the_repair. Qed.
+
+Example C01_example_remote :
+  observe KRemote true (run KRemote false TReturn []) = OOk
+  /\ observe KRemote true (run KRemote true TRaise []) = OErr (Some EOwn)
+  /\ observe KRemote false (run KRemote false TRaise []) = OErr None
+  /\ observe KRemote true (run KRemote false TReturn [(start_point KRemote + 6, AWTE); (start_point KRemote + 8, AKillMidSend)]) = OErr None.
+Proof. repeat split; vm_compute; reflexivity. Qed.
 
 Example C01_example_kill_mid_send :
   observe KProcess true (run KProcess false TReturn [(18, AKillMidSend)]) = OErr None
@@ -29,3 +54,5 @@ Example C01_example_kill_mid_send :
 Proof. repeat split; vm_compute; reflexivity. Qed.
 
 Print Assumptions C01_every_landing_point.
+Print Assumptions C01_every_landing_point_remote.
+Print Assumptions C01_remote_base_exception_needs_the_repair.
